@@ -13,6 +13,7 @@
 #include <vector>
 #include <sstream>
 #include <iostream>
+#include <setjmp.h>
 
 using namespace asmjit;
 
@@ -39,17 +40,28 @@ static bool make_reg(long cls, long id, Reg& out) {
   }
 }
 
+// An error handler that does not return (longjmp), as applications that use exceptions / longjmp install: the emitter must have
+// reset its one-shot state (options, extra register) BEFORE it reports, or the state leaks into the next instruction.
+static jmp_buf g_jmp;
+class JumpingErrorHandler : public ErrorHandler {
+public:
+  void handle_error(Error, const char*, BaseEmitter*) override { longjmp(g_jmp, 1); }
+};
+static JumpingErrorHandler g_jump_handler;
+
 struct Ctx {
   CodeHolder code;
   x86::Assembler* a = nullptr;
   Arch arch;
   uint64_t base;
+  bool jumping;
   size_t calls = 0;
-  explicit Ctx(Arch ar, uint64_t b = Globals::kNoBaseAddress) : arch(ar), base(b) { init(); }
+  explicit Ctx(Arch ar, uint64_t b = Globals::kNoBaseAddress, bool j = false) : arch(ar), base(b), jumping(j) { init(); }
   void init() {
     delete a;
     code.reset();
     code.init(Environment(arch), base);
+    if (jumping) code.set_error_handler(&g_jump_handler);
     a = new x86::Assembler(&code);
     a->add_diagnostic_options(DiagnosticOptions::kValidateAssembler);
     calls = 0;
@@ -59,6 +71,7 @@ struct Ctx {
 int main() {
   Ctx c32(Arch::kX86), c64(Arch::kX64);
   Ctx* cbase = nullptr;
+  Ctx c32j(Arch::kX86, Globals::kNoBaseAddress, true), c64j(Arch::kX64, Globals::kNoBaseAddress, true);
   std::string line;
   char hex[64];
   while (std::getline(std::cin, line)) {
@@ -71,7 +84,8 @@ int main() {
       uint64_t b = strtoull(modes.c_str() + at + 1, nullptr, 10);
       if (!cbase || cbase->base != b) { delete cbase; cbase = new Ctx(Arch::kX64, b); }
     }
-    Ctx& cx = at != std::string::npos ? *cbase : (mode == 64 ? c64 : c32);
+    bool jumping = modes.find('!') != std::string::npos;
+    Ctx& cx = jumping ? (mode == 64 ? c64j : c32j) : at != std::string::npos ? *cbase : (mode == 64 ? c64 : c32);
     if (cx.calls >= 2000) cx.init();
     cx.calls++;
     InstId id = InstAPI::string_to_inst_id(cx.arch, name.c_str(), name.size());
@@ -114,14 +128,29 @@ int main() {
     }
     if (bad) { puts("BAD"); continue; }
     x86::Assembler& a = *cx.a;
+    if (jumping) {
+      // a refused instruction that carries one-shot state (lock + rep options, {k3}); the handler longjmps out of the emitter
+      if (setjmp(g_jmp) == 0) {
+        a.set_inst_options(InstOptions::kX86_Lock | InstOptions::kX86_Rep);
+        a.set_extra_reg(x86::k(3));
+        Operand none_ext[3];
+        a._emit(x86::Inst::kIdAdd, x86::eax, x86::eax, Operand(), none_ext);
+        puts("BAD-PROBE-ACCEPTED"); continue;
+      }
+    }
     size_t before = a.offset();
     a.set_inst_options(InstOptions(uint32_t(strtoul(opt.c_str(), nullptr, 16))));
     if (extra != "-") {
       long cls = 0, rid = 0; sscanf(extra.c_str(), "%ld:%ld", &cls, &rid);
       Reg r; if (make_reg(cls, rid, r)) a.set_extra_reg(r);
     }
-    Error err = a._emit(id, ops[0], ops[1], ops[2], &ops[3]);
-    a.reset_inst_options(); a.reset_extra_reg();
+    Error err;
+    if (jumping && setjmp(g_jmp) != 0) {
+      err = Error::kInvalidState;      // the call itself was refused (reported through the jumping handler)
+    } else {
+      err = a._emit(id, ops[0], ops[1], ops[2], &ops[3]);
+    }
+    // no manual reset of options / extra register here: resetting the one-shot state is the emitter's job (also when it fails)
     size_t after = a.offset();
     if (err != Error::kOk) { printf("ERR %u %zu\n", unsigned(err), after - before); continue; }
     const uint8_t* p = cx.code.text_section()->buffer().data();
